@@ -22,7 +22,8 @@ func init() {
 			`R03.5 every successful end of a series reachable from GetWriter passes a checked writer.Finalize(); ` +
 			`R03.6 the overlay bowl's work lists are appended to only by markOverlay/markMove/Transpose, each after a completed search for the same key; ` +
 			`R03.7 every concrete type stored in an interface-typed checkpoint field is gob-registered; ` +
-			`R03.8 both series loops consult ShouldSave inside the loop, request and pop a reader checkpoint on that edge, and offer the popped checkpoint. ` +
+			`R03.8 both series loops consult ShouldSave inside the loop, request and pop a reader checkpoint on that edge, and offer the popped checkpoint; ` +
+			`R03.9 every path from reading a SyncOp / bsdiff Control to SaveConsumer.Save passes the application of that message (a checkpoint never sits between consuming a message and writing its bytes). ` +
 			`NOT decided: that the four layers agree at every interruption point, content equality after resume, savior's decompressor checkpoints.`,
 		Assumptions: []string{"checkpoint types are those reachable from patcher.Checkpoint inside the module plus the payload types stored into BowlCheckpoint.Data / WriterCheckpoint.Data"},
 		Run:         runC03,
@@ -88,6 +89,7 @@ func runC03(c *core.Ctx) {
 		"R03.6": "work-list ownership and de-duplication",
 		"R03.7": "gob registration of checkpoint payload types",
 		"R03.8": "checkpoints are requested inside the series loops and offered when popped",
+		"R03.9": "no checkpoint between reading a message and applying it",
 	} {
 		c.Rule(id, d)
 	}
@@ -267,6 +269,29 @@ func runC03(c *core.Ctx) {
 					"the ShouldSave test lies on the loop's cycle, so it is asked again while the series is applied", "ShouldSave is asked outside the series loop only: a consumer that always wants to save is offered at most one checkpoint per file")
 			}
 		}
+		// R03.9: a checkpoint never separates reading a message from applying it
+		msgType, applyName := "pwr.SyncOp", "(*wsync.Context).ApplySingle"
+		if strings.HasSuffix(name, "Bsdiff") {
+			msgType, applyName = "bsdiff.Control", "(*bsdiff.IndividualPatchContext).Apply"
+		}
+		isApply := callTo(applyName)
+		nRd := 0
+		core.Instrs(fn, func(in ssa.Instruction) {
+			cl, ok := in.(ssa.CallInstruction)
+			if !ok {
+				return
+			}
+			idx := wireReadCall(cl)
+			if idx < 0 || core.TypeName(core.StripConv(cl.Common().Args[idx]).Type()) != msgType {
+				return
+			}
+			nRd++
+			p := core.FindPath(fn, in, isSave, isApply)
+			c.Check(p == nil, "R03.9", fname, "no checkpoint between reading a "+msgType+" and applying it", core.InstrPos(in),
+				"every path from this read to SaveConsumer.Save applies the message first",
+				"a checkpoint can be handed out after a message was consumed from the patch but before it was applied: a patcher resumed from it continues behind that message and the bytes it carried are missing from the output").Path = c.P.PathStrings(p)
+		})
+		c.Floor("R03.9", msgType+" reads in "+name, nRd, 1)
 		// R03.5
 		isGetWriter := func(in ssa.Instruction) bool {
 			cl, ok := in.(*ssa.Call)
@@ -324,10 +349,10 @@ func runC03(c *core.Ctx) {
 			for i := 0; i < st.NumFields(); i++ {
 				ft := st.Field(i).Type()
 				if core.TypeName(ft) == "os.File" {
-					fileField = st.Field(i).Name()
+					fileField = core.FieldNameOf(tn.Type(), st.Field(i))
 				}
 				if core.TypeName(ft) == "pwr/overlay.OverlayWriter" {
-					ovField = st.Field(i).Name()
+					ovField = core.FieldNameOf(tn.Type(), st.Field(i))
 				}
 			}
 			save := c.P.Fn("pwr/bowl", nm+".Save")
@@ -506,7 +531,6 @@ func runC03(c *core.Ctx) {
 		c.Missing("R03.6", "pwr/bowl.overlayBowl", "not found")
 	} else {
 		lists := map[string]bool{"overlayFiles": true, "moveFiles": true, "transpositions": true}
-		allowedFns := map[string]bool{"markOverlay": true, "markMove": true, "Transpose": true}
 		nApp := 0
 		for _, fn := range c.P.SrcFuncs() {
 			core.Instrs(fn, func(in ssa.Instruction) {
@@ -530,8 +554,6 @@ func runC03(c *core.Ctx) {
 					return
 				}
 				nApp++
-				c.Check(allowedFns[fn.Name()] && core.TypeName(fn.Signature.Recv().Type()) == "pwr/bowl.overlayBowl", "R03.6", core.FnName(fn), "append to overlayBowl."+name, core.InstrPos(in),
-					"appended by its owner function", "overlayBowl."+name+" is appended to outside markOverlay/markMove/Transpose: entries added without the once-per-file search are committed twice after a resume")
 				// after a completed search: guarded by the loop-exit edge of a range over the same list,
 				// whose body leaves the function (or replaces in place) when the key matches
 				searched := hasGuard(in, func(g core.Guard) bool {
